@@ -267,6 +267,81 @@ func propLaw(t *rapid.T, w *wg) {
 	if eq && !flatEq(pj, qj) {
 		cls = append(cls, "same_pt_diff_rep_Q")
 	}
+	// ---- the identity written as the Go zero value (0,0,0) (`var acc G1Jac`; also what DoubleMixed of
+	// the affine identity returns), on either side of every binary entry point
+	{
+		O := ref.Pt{Inf: true}
+		zero := func() interface{} { return g.NewJac() }
+		zeros := []struct {
+			nm string
+			mk func() interface{}
+		}{{"zero value", zero}}
+		if w.jacDoubleMixed {
+			zeros = append(zeros, struct {
+				nm string
+				mk func() interface{}
+			}{"DoubleMixed(affine O)", func() interface{} {
+				z := w.poisonJac()
+				reg.M(z, "DoubleMixed", g.NewAff())
+				return z
+			}})
+		}
+		for _, zr := range zeros {
+			for _, o := range []struct {
+				nm  string
+				jac interface{}
+				aff interface{}
+				pt  ref.Pt
+				zc  string
+			}{{"P", pj, pa, P.P, zp}, {"Q", qj, qa, Q.P, zq}} {
+				what := "identity as " + zr.nm + " vs " + o.nm + "[" + o.zc + "]=" + E.Str(o.pt)
+				if got := reg.Bool(zr.mk(), "Equal", o.jac); got != o.pt.Inf {
+					t.Fatalf("%s: Jac.Equal(%s) = %v, want %v", g.ID(), what, got, o.pt.Inf)
+				}
+				if got := reg.Bool(o.jac, "Equal", zr.mk()); got != o.pt.Inf {
+					t.Fatalf("%s: Jac.Equal(%s, reversed) = %v, want %v", g.ID(), what, got, o.pt.Inf)
+				}
+				z := zr.mk()
+				reg.M(z, "AddAssign", o.jac)
+				w.jacIs(t, "O.AddAssign: "+what, z, o.pt)
+				z = reg.Clone(o.jac)
+				reg.M(z, "AddAssign", zr.mk())
+				w.jacIs(t, "AddAssign(O): "+what, z, o.pt)
+				z = zr.mk()
+				reg.M(z, "SubAssign", o.jac)
+				w.jacIs(t, "O.SubAssign: "+what, z, E.Neg(o.pt))
+				z = reg.Clone(o.jac)
+				reg.M(z, "SubAssign", zr.mk())
+				w.jacIs(t, "SubAssign(O): "+what, z, o.pt)
+				z = zr.mk()
+				reg.M(z, "AddMixed", o.aff)
+				w.jacIs(t, "O.AddMixed: "+what, z, o.pt)
+			}
+			z := zr.mk()
+			reg.M(z, "DoubleAssign")
+			w.jacIs(t, "DoubleAssign of the identity as "+zr.nm, z, O)
+			z = w.poisonJac()
+			reg.M(z, "Double", zr.mk())
+			w.jacIs(t, "Double of the identity as "+zr.nm, z, O)
+			z = w.poisonJac()
+			reg.M(z, "Neg", zr.mk())
+			w.jacIs(t, "Neg of the identity as "+zr.nm, z, O)
+			a := w.poisonAff()
+			reg.M(a, "FromJacobian", zr.mk())
+			w.affIs(t, "FromJacobian of the identity as "+zr.nm, a, O)
+			if !reg.Bool(a, "IsInfinity") {
+				t.Fatalf("%s: FromJacobian(identity as %s) is not IsInfinity", g.ID(), zr.nm)
+			}
+			if !reg.Bool(zr.mk(), "Equal", zr.mk()) || !reg.Bool(zr.mk(), "Equal", zero()) || !reg.Bool(zero(), "Equal", zr.mk()) {
+				t.Fatalf("%s: two identities (%s) are not Equal", g.ID(), zr.nm)
+			}
+		}
+		cls = append(cls, "inf_zero_value_operand")
+		if zp == "inf_zero" || zq == "inf_zero" || zp2 == "inf_zero" {
+			cls = append(cls, "rep_000")
+		}
+	}
+
 	// ---- P = Q as ONE object (receiver is also the operand): p+p = 2p, p-p = O
 	inf := ref.Pt{Inf: true}
 	sj := reg.Clone(pj)
@@ -375,7 +450,15 @@ func propPred(t *rapid.T, w *wg) {
 		if got := reg.Bool(aff, "IsInfinity"); got != P.P.Inf {
 			t.Fatalf("%s: IsInfinity(%s)=%v", g.ID(), E.Str(P.P), got)
 		}
+		// the identity written as the zero value (0,0,0) (Y^2 = X^3 holds): on the curve and in the subgroup
+		if z := g.NewJac(); !reg.Bool(z, "IsOnCurve") || !reg.Bool(z, "IsInSubGroup") {
+			t.Fatalf("%s: the identity as the zero value (0,0,0): IsOnCurve=%v IsInSubGroup=%v", g.ID(), reg.Bool(z, "IsOnCurve"), reg.Bool(z, "IsInSubGroup"))
+		}
 		var m []string
+		if zc == "inf_zero" {
+			m = append(m, "rep_000")
+		}
+		cls = append(cls, mand(g.ID(), "inf_zero_value_operand")...)
 		if !in {
 			m = append(m, "non_subgroup")
 		}
